@@ -28,6 +28,10 @@ pub enum Val {
     Limit(bool, u8),
     /// fraction of two integer operands (Q only; ignored otherwise -> numerator)
     Frac(Box<Val>, Box<Val>),
+    /// polynomial by coefficient list (polynomial rings; other types use the constant term)
+    Poly(Vec<Val>),
+    /// monomial c x^d
+    Mono(u8, Box<Val>),
     /// pair (quadratic integers; other types use the first)
     Pair(Box<Val>, Box<Val>),
     /// the accumulator itself / its negative / its inverse (if a unit)
@@ -62,7 +66,7 @@ pub struct Case { pub ty: Ty, pub start: Val, pub ops: Vec<Op> }
 
 // ---------------------------------------------------------------------------
 
-fn int_of(v: &Val, bits: Option<u32>) -> BigInt {
+pub fn int_of(v: &Val, bits: Option<u32>) -> BigInt {
     match v {
         Val::Zero => bi(0), Val::One => bi(1), Val::MinusOne => bi(-1),
         Val::Small(x) => bi(*x),
@@ -72,20 +76,34 @@ fn int_of(v: &Val, bits: Option<u32>) -> BigInt {
             Some(b) => if *max { (BigInt::one() << b) - 1 - bi(*d as i64) } else { -(BigInt::one() << b) + bi(*d as i64) },
             None => { let x = (BigInt::one() << 200u32) - bi(*d as i64); if *max { x } else { -x } }
         },
-        Val::Frac(a, _) | Val::Pair(a, _) => int_of(a, bits),
+        Val::Frac(a, _) | Val::Pair(a, _) | Val::Mono(_, a) => int_of(a, bits),
+        Val::Poly(c) => c.first().map(|a| int_of(a, bits)).unwrap_or_else(|| bi(0)),
         _ => bi(1),
     }
 }
 
-fn resolve(v: &Val, k: &RK, bits: Option<u32>, acc: &RV, hist: &[RV]) -> Option<RV> {
+pub fn resolve(v: &Val, k: &RK, bits: Option<u32>, acc: &RV, hist: &[RV]) -> Option<RV> {
+    let coeff_ring = match k { RK::PQ => Some(RK::Q), RK::PF(p) => Some(RK::F(*p)), _ => None };
+    if let Some(ck) = coeff_ring {
+        let coef = |c: &Val| -> Option<RV> { resolve(c, &ck, bits, &ck.zero(), &[]) };
+        let build = |cs: Vec<RV>| -> RV { match ck {
+            RK::Q => { let mut v: Vec<BigRational> = cs.into_iter().map(|c| match c { RV::Q(q) => q, _ => unreachable!() }).collect(); while v.last().map(|x| x.is_zero()).unwrap_or(false) { v.pop(); } RV::PQ(v) }
+            _ => { let mut v: Vec<u64> = cs.into_iter().map(|c| match c { RV::F(q) => q, _ => unreachable!() }).collect(); while v.last().map(|x| *x == 0).unwrap_or(false) { v.pop(); } RV::PF(v) } } };
+        match v {
+            Val::Poly(cs) => return Some(build(cs.iter().map(coef).collect::<Option<Vec<_>>>()?)),
+            Val::Mono(d, c) => { let mut cs = vec![ck.zero(); *d as usize]; cs.push(coef(c)?); return Some(build(cs)) }
+            Val::Acc | Val::NegAcc | Val::InvAcc | Val::Prev(_) => {}
+            other => return Some(build(vec![coef(other)?])),
+        }
+    }
     Some(match v {
         Val::Acc => acc.clone(),
         Val::NegAcc => k.neg(acc),
         Val::InvAcc => k.inv(acc)?,
         Val::Prev(i) => if hist.is_empty() { acc.clone() } else { hist[((*i as usize) * hist.len()) >> 16].clone() },
         Val::Frac(a, b) => match k {
-            RK::Q => { let d = int_of(b, bits); if d.is_zero() { return None } RV::Q(BigRational::new(int_of(a, bits), d)) }
-            RK::F(_) => { let d = k.from_int(&int_of(b, bits)); if k.is_zero(&d) { return None } k.exact_div(&k.from_int(&int_of(a, bits)), &d)? }
+            RK::Q => { let mut d = int_of(b, bits); if d.is_zero() { d = bi(1); } RV::Q(BigRational::new(int_of(a, bits), d)) }
+            RK::F(_) => { let mut d = k.from_int(&int_of(b, bits)); if k.is_zero(&d) { d = k.one(); } k.exact_div(&k.from_int(&int_of(a, bits)), &d)? }
             _ => k.from_int(&int_of(a, bits)),
         },
         Val::Pair(a, b) => match k {
@@ -168,13 +186,14 @@ impl_divide_ratio!(i64, i128, BigInt);
 impl_divide_int!(i32, i64, i128, BigInt);
 impl_divide_none!(yui::GaussInt<i64>, yui::GaussInt<i128>, yui::GaussInt<BigInt>, yui::EisenInt<i64>, yui::EisenInt<i128>, yui::EisenInt<BigInt>,
     Q2<i64>, Q2<BigInt>, Qm2<BigInt>, Q5<i64>, Q5<BigInt>, Qm7<BigInt>,
-    yui::poly::Poly<'x', yui::Ratio<i64>>, yui::poly::Poly<'x', yui::Ratio<BigInt>>, yui::poly::Poly<'x', yui::FF<3>>, yui::poly::Poly<'x', yui::FF<5>>);
+    yui::poly::Poly<'x', yui::Ratio<i64>>, yui::poly::Poly<'x', yui::Ratio<BigInt>>, yui::poly::Poly<'x', yui::FF<3>>, yui::poly::Poly<'x', yui::FF<5>>,
+    yui::poly::HPoly<'x', yui::Ratio<i64>>, yui::poly::HPoly<'x', yui::Ratio<BigInt>>, yui::poly::HPoly<'x', yui::FF<3>>);
 
-fn fits(v: &RV, bits: Option<u32>) -> bool {
+pub fn fits(v: &RV, bits: Option<u32>) -> bool {
     let Some(b) = bits else { return true };
     let lim = BigInt::one() << b;
     let ok = |x: &BigInt| *x >= -&lim && *x < lim;
-    match v { RV::Z(x) => ok(x), RV::Q(q) => ok(q.numer()) && ok(q.denom()), RV::Quad(a, b) => ok(a) && ok(b), _ => true }
+    match v { RV::Z(x) => ok(x), RV::Q(q) => ok(q.numer()) && ok(q.denom()), RV::Quad(a, b) => ok(a) && ok(b), RV::PQ(c) => c.iter().all(|q| ok(q.numer()) && ok(q.denom())), _ => true }
 }
 
 fn check_state<T>(acc: &T, model: &RV, what: &str) -> Chk where T: Sc + yui::Ring, for<'a> &'a T: yui::RingOps<T> {
@@ -359,8 +378,8 @@ fn digits(max: usize) -> BoxedStrategy<String> {
 }
 
 pub fn int_val(bits: Option<u32>, tier: Tier) -> BoxedStrategy<Val> {
-    let maxk = bits.map(|b| b - 2).unwrap_or(tier.pick(400, 1200));
-    let maxdig = bits.map(|b| (b as usize) * 3 / 10 - 1).unwrap_or(tier.pick(120, 320));
+    let maxk = bits.map(|b| b.saturating_sub(2).max(1)).unwrap_or(tier.pick(400, 1200));
+    let maxdig = bits.map(|b| ((b as usize) * 3 / 10).saturating_sub(1).max(1)).unwrap_or(tier.pick(120, 320));
     prop_oneof![
         2 => Just(Val::Zero), 2 => Just(Val::One), 2 => Just(Val::MinusOne),
         8 => (-12i64..=12).prop_map(Val::Small),
